@@ -16,6 +16,7 @@ def factsOK : Bool :=
   Generated.c14ExtendChildrenCaught ==
     [("keys_get", ["UnregisteredTarget"]), ("iterate_lookup", ["UnregisteredTarget"]),
      ("iterate_run", ["Exception"]), ("get_item", ["Exception"]), ("keys_run", ["Exception"])] &&
+  Generated.c14SeqGuardTypes == seqGuard &&
   Generated.c14StarBranchShape && Generated.c14RecursionCaught == ["PathAccessError"] &&
   Generated.c14StarsCountsBoth && Generated.c14FromTextMapsStars && Generated.c14ApplyForEachShape &&
   (Generated.tDispatch.find? (·.1 == "x")).map (·.2.1) == some "star" &&
